@@ -99,7 +99,7 @@ def models(tier, seed):
 
     def m(cfg, label, workers=4, expect=False, timeout=None):
         return dict(module=cfg.split("_")[0] + "_" + cfg.split("_")[1], cfg=cfg + ".cfg", label=label, workers=workers,
-                    timeout=timeout or (175 if q else 3000), expect_violation=expect)
+                    timeout=timeout or (900 if q else 6000), expect_violation=expect)
     out = [
         m("MC_UpConverter_asc_quick", "up r2, pinned design, ascending in-word orders (documented usage), 3 cmds"),
         m("MC_UpConverter_fix_quick", "up r2 with the proposed next_cmd term, ALL orders, 3 cmds"),
